@@ -634,7 +634,13 @@ func runCheck(id string, spec propSpec, tier string, seed uint64) int {
 			fail := filepath.Join(wr.dir, "fail.json")
 			code, out := replayOnce(spec, fail, "20s")
 			if code != 1 {
-				trouble("worker %s/%d reported a violation but its minimised replay did not reproduce it in a fresh process (exit %d): the simulator is not deterministic here\n%s\n%s", wr.sub.ID, wr.idx, code, out, wr.out)
+				ff, _ := readFail(fail)
+				keep := filepath.Join(buildDir, "unreproduced")
+				os.MkdirAll(keep, 0o755)
+				if b, err := os.ReadFile(fail); err == nil {
+					os.WriteFile(filepath.Join(keep, fmt.Sprintf("%s-seed%d-%s-w%d.json", id, seed, strings.ReplaceAll(wr.sub.ID, "/", "_"), wr.idx)), b, 0o644)
+				}
+				trouble("worker %s/%d reported a violation (class %s, timing dependent: %v: %s) but its minimised replay did not reproduce it in a fresh process (exit %d): the simulator is not deterministic here; the file is kept under %s\n%s\n%s", wr.sub.ID, wr.idx, ff.Class, ff.TimingDependent, firstLine(ff.Detail), code, keep, out, wr.out)
 			}
 			dst := saveReplay(id, seed, fmt.Sprintf("%s-w%d", strings.ReplaceAll(wr.sub.ID, "/", "_"), wr.idx), fail)
 			ff, _ := readFail(fail)
